@@ -496,3 +496,149 @@ Lemma parse_expr_at_consumes : consumes (parse_expr_at fx).
 Proof. intros s a r E. unfold parse_expr_at in E. eapply (proj1 (expr_consumes _)); eauto. Qed.
 
 End WithMode.
+
+(** the same for any leaf parser that consumes input and never runs out of fuel (plotql.rs carries a second copy of the rules) *)
+Section ExprFuelG.
+Variable lf : P expr.
+Hypothesis Hlc : consumes lf.
+Hypothesis Hln : noof lf.
+
+Lemma expr_consumes_g : forall f,
+  consumes (or_expr_g lf f) /\ consumes (and_expr_g lf f) /\ consumes (factor_g lf f).
+Proof.
+  induction f as [|f (IHo & IHa & IHf)].
+  - repeat split; intros s a r E; discriminate.
+  - assert (Hfac : consumes (factor_g lf (S f))).
+    { intros s a r E. rewrite factor_g_S in E. unfold paren_or_leaf_g in E.
+      assert (Hpl : forall a r, (match (match lit 40 s with
+               | Some r1 => match or_expr_g lf f (ws r1) with
+                            | Ok (e, r2) => match lit 41 (ws r2) with Some r3 => Ok (e, r3) | None => Err end
+                            | other => other end
+               | None => Err end) with Err => lf s | other => other end) = Ok (a, r) -> (length r < length s)%nat).
+      { intros a0 r0 E0. destruct (lit 40 s) as [r1|] eqn:L1.
+        - apply lit_len in L1. destruct (or_expr_g lf f (ws r1)) as [[e r2]| | |] eqn:O; try discriminate.
+          + apply IHo in O. pose proof (ws_length r1).
+            destruct (lit 41 (ws r2)) as [r3|] eqn:L2.
+            * inversion E0; subst. apply lit_len in L2. pose proof (ws_length r2). lia.
+            * eapply Hlc; eauto.
+          + eapply Hlc; eauto.
+        - eapply Hlc; eauto. }
+      destruct (ci K_NOT s) as [r1|] eqn:C; [|eauto].
+      apply ci_length in C. destruct (factor_g lf f (ws r1)) as [[x r2]| | |] eqn:F; try discriminate; eauto.
+      inversion E; subst. apply IHf in F. pose proof (ws_length r1). lia. }
+    assert (Hand : consumes (and_expr_g lf (S f))).
+    { intros s a r E. rewrite and_expr_g_S in E. destruct (factor_g lf f s) as [[x r0]| | |] eqn:F; try discriminate.
+      apply IHf in F. destruct (ci K_AND (ws r0)) as [r1|] eqn:C.
+      - apply ci_length in C. pose proof (ws_length r0).
+        destruct (and_expr_g lf f (ws r1)) as [[y r2]| | |] eqn:A; try discriminate; inversion E; subst; auto.
+        apply IHa in A. pose proof (ws_length r1). lia.
+      - inversion E; subst; auto. }
+    repeat split; auto.
+    intros s a r E. rewrite or_expr_g_S in E. destruct (and_expr_g lf f s) as [[x r0]| | |] eqn:F; try discriminate.
+    apply IHa in F. destruct (ci K_OR (ws r0)) as [r1|] eqn:C.
+    + apply ci_length in C. pose proof (ws_length r0).
+      destruct (or_expr_g lf f (ws r1)) as [[y r2]| | |] eqn:A; try discriminate; inversion E; subst; auto.
+      apply IHo in A. pose proof (ws_length r1). lia.
+    + inversion E; subst; auto.
+Qed.
+
+Lemma expr_noof_g : forall f s,
+  ((3 * length s + 3 <= f)%nat -> or_expr_g lf f s <> OOF) /\
+  ((3 * length s + 2 <= f)%nat -> and_expr_g lf f s <> OOF) /\
+  ((3 * length s + 1 <= f)%nat -> factor_g lf f s <> OOF).
+Proof.
+  induction f as [|f IH]; intro s.
+  - repeat split; intro; lia.
+  - assert (Hfac : (3 * length s + 1 <= S f)%nat -> factor_g lf (S f) s <> OOF).
+    { intro Hl. rewrite factor_g_S. unfold paren_or_leaf_g.
+      assert (Hpl : (match (match lit 40 s with
+               | Some r1 => match or_expr_g lf f (ws r1) with
+                            | Ok (e, r2) => match lit 41 (ws r2) with Some r3 => Ok (e, r3) | None => Err end
+                            | other => other end
+               | None => Err end) with Err => lf s | other => other end) <> OOF).
+      { destruct (lit 40 s) as [r1|] eqn:L1; [|apply Hln].
+        apply lit_len in L1. pose proof (ws_length r1).
+        destruct (IH (ws r1)) as (Ho & _ & _). specialize (Ho ltac:(lia)).
+        destruct (or_expr_g lf f (ws r1)) as [[e r2]| | |]; try discriminate; try apply Hln; try congruence.
+        destruct (lit 41 (ws r2)); [discriminate|apply Hln]. }
+      destruct (ci K_NOT s) as [r1|] eqn:C; [|auto].
+      apply ci_length in C. pose proof (ws_length r1).
+      destruct (IH (ws r1)) as (_ & _ & Hf). specialize (Hf ltac:(lia)).
+      destruct (factor_g lf f (ws r1)) as [[x r2]| | |]; try discriminate; auto. }
+    assert (Hand : (3 * length s + 2 <= S f)%nat -> and_expr_g lf (S f) s <> OOF).
+    { intro Hl. rewrite and_expr_g_S. destruct (IH s) as (_ & _ & Hf). specialize (Hf ltac:(lia)).
+      destruct (factor_g lf f s) as [[x r0]| | |] eqn:F; try discriminate; try congruence.
+      apply (proj2 (proj2 (expr_consumes_g f))) in F.
+      destruct (ci K_AND (ws r0)) as [r1|] eqn:C; [|discriminate].
+      apply ci_length in C. pose proof (ws_length r0). pose proof (ws_length r1).
+      destruct (IH (ws r1)) as (_ & Ha & _). specialize (Ha ltac:(lia)).
+      destruct (and_expr_g lf f (ws r1)) as [[y r2]| | |]; try discriminate; congruence. }
+    repeat split; auto.
+    intro Hl. rewrite or_expr_g_S. destruct (IH s) as (_ & Ha & _). specialize (Ha ltac:(lia)).
+    destruct (and_expr_g lf f s) as [[x r0]| | |] eqn:F; try discriminate; try congruence.
+    apply (proj1 (proj2 (expr_consumes_g f))) in F.
+    destruct (ci K_OR (ws r0)) as [r1|] eqn:C; [|discriminate].
+    apply ci_length in C. pose proof (ws_length r0). pose proof (ws_length r1).
+    destruct (IH (ws r1)) as (Ho & _ & _). specialize (Ho ltac:(lia)).
+    destruct (or_expr_g lf f (ws r1)) as [[y r2]| | |]; try discriminate; congruence.
+Qed.
+
+(** more fuel does not change a result that was not [OOF] *)
+Lemma expr_mono_g : forall f s,
+  (forall r, or_expr_g lf f s = r -> r <> OOF -> or_expr_g lf (S f) s = r) /\
+  (forall r, and_expr_g lf f s = r -> r <> OOF -> and_expr_g lf (S f) s = r) /\
+  (forall r, factor_g lf f s = r -> r <> OOF -> factor_g lf (S f) s = r).
+Proof.
+  induction f as [|f IH]; intro s.
+  - repeat split; intros r E Hn; cbn in E; congruence.
+  - assert (Hfac : forall r, factor_g lf (S f) s = r -> r <> OOF -> factor_g lf (S (S f)) s = r).
+    { intros r E Hn. rewrite factor_g_S in E. rewrite factor_g_S. unfold paren_or_leaf_g in *.
+      assert (Hpl : forall r0, (match (match lit 40 s with
+               | Some r1 => match or_expr_g lf f (ws r1) with
+                            | Ok (e, r2) => match lit 41 (ws r2) with Some r3 => Ok (e, r3) | None => Err end
+                            | other => other end
+               | None => Err end) with Err => lf s | other => other end) = r0 -> r0 <> OOF ->
+               (match (match lit 40 s with
+               | Some r1 => match or_expr_g lf (S f) (ws r1) with
+                            | Ok (e, r2) => match lit 41 (ws r2) with Some r3 => Ok (e, r3) | None => Err end
+                            | other => other end
+               | None => Err end) with Err => lf s | other => other end) = r0).
+      { intros r0 E0 Hn0. destruct (lit 40 s) as [r1|]; auto.
+        destruct (IH (ws r1)) as (Ho & _ & _).
+        destruct (or_expr_g lf f (ws r1)) as [[e r2]| | |] eqn:O.
+        - rewrite (Ho _ eq_refl ltac:(discriminate)). auto.
+        - rewrite (Ho _ eq_refl ltac:(discriminate)). auto.
+        - rewrite (Ho _ eq_refl ltac:(discriminate)). auto.
+        - congruence. }
+      destruct (ci K_NOT s) as [r1|]; auto.
+      destruct (IH (ws r1)) as (_ & _ & Hf).
+      destruct (factor_g lf f (ws r1)) as [[x r2]| | |] eqn:F.
+      - rewrite (Hf _ eq_refl ltac:(discriminate)). auto.
+      - rewrite (Hf _ eq_refl ltac:(discriminate)). auto.
+      - rewrite (Hf _ eq_refl ltac:(discriminate)). auto.
+      - congruence. }
+    assert (Hand : forall r, and_expr_g lf (S f) s = r -> r <> OOF -> and_expr_g lf (S (S f)) s = r).
+    { intros r E Hn. rewrite and_expr_g_S in E. rewrite and_expr_g_S. destruct (IH s) as (_ & _ & Hf).
+      destruct (factor_g lf f s) as [[x r0]| | |] eqn:F; try congruence;
+        rewrite (Hf _ eq_refl ltac:(discriminate)); auto.
+      destruct (ci K_AND (ws r0)) as [r1|]; auto.
+      destruct (IH (ws r1)) as (_ & Ha & _).
+      destruct (and_expr_g lf f (ws r1)) as [[y r2]| | |] eqn:A; try congruence;
+        rewrite (Ha _ eq_refl ltac:(discriminate)); auto. }
+    repeat split; auto.
+    intros r E Hn. rewrite or_expr_g_S in E. rewrite or_expr_g_S. destruct (IH s) as (_ & Ha & _).
+    destruct (and_expr_g lf f s) as [[x r0]| | |] eqn:F; try congruence;
+      rewrite (Ha _ eq_refl ltac:(discriminate)); auto.
+    destruct (ci K_OR (ws r0)) as [r1|]; auto.
+    destruct (IH (ws r1)) as (Ho & _ & _).
+    destruct (or_expr_g lf f (ws r1)) as [[y r2]| | |] eqn:A; try congruence;
+      rewrite (Ho _ eq_refl ltac:(discriminate)); auto.
+Qed.
+
+Lemma or_expr_mono_g : forall f f' s r, (f <= f')%nat -> or_expr_g lf f s = r -> r <> OOF -> or_expr_g lf f' s = r.
+Proof.
+  intros f f' s r Hle. induction Hle; intros E Hn; auto.
+  apply (proj1 (expr_mono_g m s)); auto.
+Qed.
+
+End ExprFuelG.
